@@ -81,6 +81,8 @@ def check(tier, seed, replay=None):
         PC.expect_dev(chk, "DevSwallowBreak", "split", 3, "StopsReading")
         PC.expect_dev(chk, "DevSwallowBreak", "split", 0, prop="Terminates", live=True)
         PC.expect_dev(chk, "DevSplitLast", "split", 3, "StopsReading")
+        PC.model_check(chk, ["split"], 2, ["HeadStops", "BreakPropagates", "LimiterLatched"], workers=8)
+        PC.expect_dev(chk, "DevSwallowBreak", "split", 2, "BreakPropagates")
         gen(cs, rnd, 200 if quick else 5000)
     per, recs = PC.run_and_validate(chk, jvh, cs, "c14", nproc=2 if tier == "quick" else 12)
     chk.notes["sources"] = {"stdin": sum(1 for r in cs.recipes if r.get("src") == "stdin"), "fifo": sum(1 for r in cs.recipes if r.get("src") == "fifo")}
